@@ -43,7 +43,7 @@ def fw_flags(variant="base"):
     return f
 
 
-SAN = ["-O1", "-g", "-fsanitize=address,undefined", "-fno-sanitize-recover=all", "-fno-omit-frame-pointer", "-w"]
+SAN = ["-O1", "-g", "-fsanitize=address,undefined", "-fno-sanitize-recover=all", "-fno-sanitize=shift", "-fno-omit-frame-pointer", "-w"]
 
 
 def sh(cmd, cwd=None, timeout=None, env=None, check=False, input=None):
